@@ -99,6 +99,9 @@ func rulesC10(c *Ctx) {
 	c12Registrars(c)
 	c12AnyOf(c)
 	c12Shared(c)
+	c.Rule("fresh-executor")
+	c01Self(c)
+	buildCopiesConfig(c)
 }
 
 func c10Apply(c *Ctx) {
@@ -329,6 +332,9 @@ func rulesC11(c *Ctx) {
 	} else {
 		c.Fail("cachepolicy.executor.Apply", "", "the cache executor's Apply slot is expected to be BaseExecutor.Apply (PreExecute short-circuit)", "")
 	}
+	c.Rule("fresh-executor")
+	c01Self(c)
+	c12AnyOf(c)
 }
 
 // cacheKeyTerm describes, under facts F, which key getCacheKey yields: "ctx" (the context value), "cfg"
@@ -599,6 +605,8 @@ func rulesC06(c *Ctx) {
 	c06Acquire(c)
 	c06Pairing(c)
 	ruleFailureResult(c)
+	c.Rule("fresh-executor")
+	c01Self(c)
 }
 
 func c06Capacity(c *Ctx) {
